@@ -5,8 +5,9 @@ translation of /repo's `_floordiv_rounded` / `_quantize_fraction`,
 regenerated on every run.
 -/
 import QuantityModel.Proofs.RoundingQ
+import QuantityModel.Proofs.Quantity
 namespace QM.Props.C13
-open QM QM.Gen
+open QM QM.Gen QM.QState
 
 /-- The generated kernel returns, for every dividend, every non-zero divisor
 and every one of the eight modes, an integer meeting the *standard definition*
@@ -97,6 +98,85 @@ theorem quantize_zero_quantum (a : ℚ) (v : ℤ) (p : ℕ) (m : Option Rounding
   constructor
   · simp [quantizeFraction]
   · simp [decQuantize, floordiv_zero]
+
+/-! ### the level of quantities: `Quantity.quantize`, `round()` -/
+
+variable {s : QState}
+
+/-- a quantum of another quantity type is rejected with TypeError -/
+theorem quantize_other_type_rejected (d : Rounding) (a quant : Qty) (aDec : Option (Int × Nat))
+    (m : Option Rounding) (h : s.reg.unitCls quant.unit ≠ s.reg.unitCls a.unit) :
+    s.qtyQuantize d a aDec quant m = .error .TypeError := by
+  unfold QState.qtyQuantize
+  have : (s.reg.unitCls quant.unit != s.reg.unitCls a.unit) = true := by simpa using h
+  simp [this]
+
+/-- a type without reference unit cannot be quantized: TypeError -/
+theorem quantize_reference_less_rejected (d : Rounding) (a quant : Qty) (aDec : Option (Int × Nat))
+    (m : Option Rounding) (hc : s.reg.unitCls quant.unit = s.reg.unitCls a.unit)
+    (h : (s.reg.cls (s.reg.unitCls a.unit)).refUnit = none) :
+    s.qtyQuantize d a aDec quant m = .error .TypeError := by
+  unfold QState.qtyQuantize
+  simp [hc, h]
+
+/-- **quantize at the level of quantities**: for a quantity in a unit of scale
+`ua` and a quantum in a unit of scale `uq` of the same type (no quantum declared
+for the type), the result is — in the called quantity's unit and type — the
+integer multiple of the quantum converted to that unit (`uq/ua · quant`)
+selected by the requested mode, or by the default mode when none is given, on
+the exact ratio; the same for an amount held as the Decimal `v/10^p` and as the
+equal Fraction. -/
+theorem quantize_in_own_unit (d : Rounding) (a quant : Qty) (aDec : Option (Int × Nat))
+    (m : Option Rounding) {uq ua : ℚ} (h : Linear s.reg quant.unit a.unit uq ua) (hua : ua ≠ 0)
+    (hnq : uq / ua * quant.amount ≠ 0) (ha : a.amount ≠ 0)
+    (hdec : ∀ v p, aDec = some (v, p) → a.amount = (v : ℚ) / 10 ^ p)
+    (hnoq : s.reg.unitQuantum a.unit = none) :
+    s.qtyQuantize d a aDec quant m =
+      .ok ⟨(roundQ (m.getD d) (a.amount / (uq / ua * quant.amount)) : ℚ) * (uq / ua * quant.amount),
+           a.unit⟩ := by
+  unfold QState.qtyQuantize
+  have hc : (s.reg.unitCls quant.unit != s.reg.unitCls a.unit) = false := by simp [h.sameCls]
+  have hr : (s.reg.cls (s.reg.unitCls a.unit)).refUnit.isNone = false := by
+    have := h.hasRef; rw [h.sameCls] at this
+    cases hx : (s.reg.cls (s.reg.unitCls a.unit)).refUnit <;> simp_all
+  simp only [hc, hr, Bool.false_eq_true, ↓reduceIte, equivAmount_linear h hua, ha]
+  cases aDec with
+  | none =>
+    simp only [quantize_fraction_eq _ _ _ _ hnq]
+    exact mkQty_no_quantum rfl hnoq
+  | some vp =>
+    obtain ⟨v, p⟩ := vp
+    simp only [quantize_decimal_eq _ _ _ _ _ hnq, ← hdec v p rfl]
+    exact mkQty_no_quantum rfl hnoq
+
+/-- a zero amount is returned as it is -/
+theorem quantize_zero_amount (d : Rounding) (a quant : Qty) (aDec : Option (Int × Nat))
+    (m : Option Rounding) {uq ua : ℚ} (h : Linear s.reg quant.unit a.unit uq ua) (hua : ua ≠ 0)
+    (ha : a.amount = 0) : s.qtyQuantize d a aDec quant m = .ok a := by
+  unfold QState.qtyQuantize
+  have hc : (s.reg.unitCls quant.unit != s.reg.unitCls a.unit) = false := by simp [h.sameCls]
+  have hr : (s.reg.cls (s.reg.unitCls a.unit)).refUnit.isNone = false := by
+    have := h.hasRef; rw [h.sameCls] at this
+    cases hx : (s.reg.cls (s.reg.unitCls a.unit)).refUnit <;> simp_all
+  simp only [hc, hr, Bool.false_eq_true, ↓reduceIte, equivAmount_linear h hua, ha]
+
+/-- **`round(q, n)`** keeps unit and type and rounds the amount to `n`
+decimals: the result is a multiple of `10^-n` less than one such unit from the
+amount (`n ≥ 0`; types without quantum) -/
+theorem round_keeps_unit_and_rounds (d : Rounding) (a : Qty) (isDec : Bool) (n : ℕ)
+    (hnoq : s.reg.unitQuantum a.unit = none) :
+    ∃ k : ℤ, s.qtyRound d a isDec n = .ok ⟨(k : ℚ) / 10 ^ n, a.unit⟩ ∧
+      |a.amount - (k : ℚ) / 10 ^ n| < 1 / 10 ^ n := by
+  unfold QState.qtyRound roundAmount
+  simp only [Int.natCast_nonneg, ↓reduceIte, Int.toNat_natCast]
+  refine ⟨_, mkQty_no_quantum rfl hnoq, ?_⟩
+  set mm := if isDec = true then d else Rounding.ROUND_HALF_EVEN
+  have herr := roundQ_err_lt_one mm (a.amount * 10 ^ n)
+  have hp : (0 : ℚ) < 10 ^ n := by positivity
+  have e : a.amount - (roundQ mm (a.amount * 10 ^ n) : ℚ) / 10 ^ n =
+      (a.amount * 10 ^ n - roundQ mm (a.amount * 10 ^ n)) / 10 ^ n := by field_simp
+  rw [e, abs_div, abs_of_pos hp]
+  exact div_lt_div_of_pos_right herr hp
 
 /-! Non-vacuity: concrete ties under the modes (kernel evaluation). -/
 example : floordivRounded 5 2 (some .ROUND_HALF_EVEN) .ROUND_UP = .ok 2 := by decide +kernel
